@@ -1206,47 +1206,89 @@ func (c *tctx) fragment(body *ast.BlockStmt) (string, string, string) {
 		count, seen := -1, false
 		var scanFn func(b *ast.BlockStmt) bool
 		scanFn = func(b *ast.BlockStmt) bool {
-			exits := 0
-			hit := false
+			// pass 1: the call and the loops / conditionals that enclose it inside this function body
+			var callNode *ast.CallExpr
+			var callLoops []ast.Node
+			depth := 0
 			var stack []ast.Node
+			inner := false
 			ast.Inspect(b, func(nd ast.Node) bool {
 				if nd == nil {
 					stack = stack[:len(stack)-1]
 					return true
 				}
-				if hit {
+				if callNode != nil || inner {
 					return false
 				}
 				switch y := nd.(type) {
 				case *ast.FuncLit:
 					if scanFn(y.Body) {
-						hit = true
+						inner = true
 					}
 					return false
-				case *ast.ReturnStmt:
-					exits++
-				case *ast.BranchStmt:
-					exits++
 				case *ast.CallExpr:
 					if strings.HasPrefix(norm(c.fset, y.Fun), t.Pick) {
-						depth := 0 // conditionals and loops that enclose the call inside this function body
+						callNode = y
 						for _, p := range stack {
 							switch p.(type) {
-							case *ast.IfStmt, *ast.ForStmt, *ast.RangeStmt, *ast.SwitchStmt, *ast.TypeSwitchStmt, *ast.SelectStmt:
+							case *ast.ForStmt, *ast.RangeStmt:
+								callLoops = append(callLoops, p)
+								depth++
+							case *ast.IfStmt, *ast.SwitchStmt, *ast.TypeSwitchStmt, *ast.SelectStmt:
 								depth++
 							}
 						}
 						if is, ok := stack[len(stack)-1].(*ast.IfStmt); ok && is.Cond == ast.Expr(y) {
 							depth-- // the call IS the condition of that if: it is evaluated unconditionally
 						}
-						count, hit = exits*1000+depth, true
 						return false
 					}
 				}
 				stack = append(stack, nd)
 				return true
 			})
-			return hit
+			if inner {
+				return true
+			}
+			if callNode == nil {
+				return false
+			}
+			// pass 2: statements before the call that can skip it: returns of this function, and break / continue / goto
+			// whose innermost loop also encloses the call (a `continue` of an earlier, unrelated loop skips nothing)
+			exits := 0
+			stack = nil
+			ast.Inspect(b, func(nd ast.Node) bool {
+				if nd == nil {
+					stack = stack[:len(stack)-1]
+					return true
+				}
+				if nd.Pos() >= callNode.Pos() {
+					return false
+				}
+				switch nd.(type) {
+				case *ast.FuncLit:
+					return false
+				case *ast.ReturnStmt:
+					exits++
+				case *ast.BranchStmt:
+					var loop ast.Node
+					for i := len(stack) - 1; i >= 0 && loop == nil; i-- {
+						switch stack[i].(type) {
+						case *ast.ForStmt, *ast.RangeStmt:
+							loop = stack[i]
+						}
+					}
+					for _, l := range callLoops {
+						if l == loop {
+							exits++
+						}
+					}
+				}
+				stack = append(stack, nd)
+				return true
+			})
+			count = exits*1000 + depth
+			return true
 		}
 		seen = scanFn(body)
 		if !seen {
